@@ -32,7 +32,7 @@ func (protocol) Indices(tier string) int {
 }
 func (protocol) Rule() string {
 	return "Per run index: one seeded Writer call sequence of 1..40 calls over the full Writer interface (swarm: random subset of op kinds, " +
-		"misuse rate 0/5/30 %: value in a struct without field name, End of the wrong container, End/Finish with pending annotations or " +
+		"1 run in 12 dives 30..80 containers deep first, 2 in 12 write string / lob / big-integer payloads of 64..400 bytes; misuse rate 0/5/30 %: value in a struct without field name, End of the wrong container, End/Finish with pending annotations or " +
 		"field name, FieldName outside a struct or twice, Finish inside a container, writing after Finish, several batches, symbol tokens " +
 		"with text only / system SID only / both / neither, text outside a fixed table), always ending in Finish; run on each of the " +
 		"writer configurations (text, pretty, binary with growing table with and without shared imports, binary with a fixed table), " +
@@ -81,6 +81,11 @@ type protoGen struct {
 	pendFld bool
 	pendAnn bool
 	o       gen.Opts
+	// maxDepth bounds nesting (5 normally; 33..80 in "deep" runs, which dive first); bulky makes string, lob and
+	// big integer payloads 64..400 bytes long so that several long values meet in one buffered batch.
+	maxDepth int
+	deep     bool
+	bulky    bool
 }
 
 func (g *protoGen) inStruct() bool {
@@ -121,6 +126,33 @@ func (g *protoGen) scalar() drive.WOp {
 	}
 	op := cands[r.Intn(len(cands))]
 	w := drive.WOp{Op: op}
+	if g.bulky && r.Chance(2, 3) {
+		n := r.Range(64, 400)
+		b := make([]byte, n)
+		for i := range b {
+			b[i] = byte('a' + r.Intn(26))
+		}
+		switch r.Intn(4) {
+		case 0:
+			return drive.WOp{Op: "string", V: model.NewString(string(b))}
+		case 1:
+			return drive.WOp{Op: "clob", V: model.NewLob(model.Clob, b)}
+		case 2:
+			for i := range b {
+				b[i] = byte(r.Intn(256))
+			}
+			return drive.WOp{Op: "blob", V: model.NewLob(model.Blob, b)}
+		default:
+			for i := range b {
+				b[i] = byte(r.Intn(256))
+			}
+			v := new(big.Int).SetBytes(b[:r.Range(64, len(b))])
+			if r.Bool() {
+				v.Neg(v)
+			}
+			return drive.WOp{Op: "bigint", V: model.NewBig(v)}
+		}
+	}
 	switch op {
 	case "nulltype":
 		w.T = model.Kind(r.Intn(13))
@@ -171,6 +203,9 @@ func (g *protoGen) program() []drive.WOp {
 	n := r.Range(1, 40)
 	if r.Chance(1, 3) {
 		n = r.Range(1, 6)
+	}
+	if g.deep {
+		n = 3*g.maxDepth + r.Range(0, 30)
 	}
 	var ops []drive.WOp
 	miss := func() bool { return g.misuse > 0 && r.Intn(1000) < g.misuse }
@@ -234,7 +269,11 @@ func (g *protoGen) program() []drive.WOp {
 			g.pendFld = true
 			continue
 		}
-		switch x := r.Intn(20); {
+		x := r.Intn(20)
+		if g.deep && len(g.stack) < g.maxDepth && len(ops) < 2*g.maxDepth && r.Chance(3, 4) {
+			x = 3 // dive
+		}
+		switch {
 		case x < 3 && g.enabled["annot"]:
 			if r.Bool() {
 				s, t := g.sym()
@@ -247,7 +286,7 @@ func (g *protoGen) program() []drive.WOp {
 				}
 				ops = append(ops, drive.WOp{Op: "annots", Syms: ss})
 			}
-		case x < 6 && g.enabled["container"] && len(g.stack) < 5:
+		case x < 6 && (g.enabled["container"] || g.deep) && len(g.stack) < g.maxDepth:
 			k := []model.Kind{model.List, model.Sexp, model.Struct}[r.Intn(3)]
 			ops = append(ops, drive.WOp{Op: "begin" + containerNames[k]})
 			g.stack = append(g.stack, k)
@@ -295,6 +334,15 @@ func newProtoGen(r *prng.Rand) *protoGen {
 		g.enabled["container"] = g.enabled["container"] || r.Bool()
 	}
 	g.misuse = []int{0, 0, 50, 300}[r.Intn(4)]
+	g.maxDepth = 5
+	switch r.Intn(12) {
+	case 0:
+		g.deep = true
+		g.maxDepth = r.Range(30, 80)
+		g.misuse = []int{0, 0, 20}[r.Intn(3)]
+	case 1, 2:
+		g.bulky = true
+	}
 	return g
 }
 
